@@ -5,7 +5,7 @@ PID = "C03"
 
 
 def make_work(rng, tier):
-    n = 48 if tier == "quick" else 600
+    n = 40 if tier == "quick" else 240
     work = []
     for i in range(n):
         # row counts at / around batch sizes so that exact multiples and off-by-one occur
@@ -29,7 +29,7 @@ def make_work(rng, tier):
     # strings that share their first 12+ bytes, the table filled by several INSERTs (several storage segments,
     # hence several sorted runs with more than one partition); same query under partitions 1..8
     from . import gen
-    nA = 3 if tier == "quick" else 30
+    nA = 3 if tier == "quick" else 12
     for i in range(nA):
         cols = [("c0", "i32"), ("c1", "text")]
         rows = [[rng.choice(["I1", "I1", "I2", "N"]), "S" + rng.choice(["shared_prefix_%02d" % k for k in range(1, 9)] + ["shared_prefix_", "twelve_chars"])]
@@ -50,7 +50,7 @@ def make_work(rng, tier):
         work.append({"id": "c03-sort-%d" % i, "tables": tables, "prelude": prelude, "runs": runs, "mode": "threaded", "threads": 4})
     # directed family B: outer joins evaluated by the nested-loop operator with tiny batches - a preserved side that
     # reaches one partition in several batches, early batches fully matched, later ones with unmatched rows
-    nB = 3 if tier == "quick" else 30
+    nB = 3 if tier == "quick" else 12
     for i in range(nB):
         cols = [("c0", "i32")]
         n_l = rng.choice([2, 3, 5])
